@@ -4,7 +4,7 @@ from __future__ import annotations
 import functools
 import os
 
-REPO = "/repo"
+from vlib.paths import REPO
 FIX = os.path.join(REPO, "tests", "fixtures")
 
 
